@@ -297,6 +297,11 @@ def _dedup(pairs):
 def _sm_chart(draw):
     fields = [draw(G.value(allow_none=False)).strip() for _ in range(5)]
     if draw(st.integers(0, 2)) == 0:
+        # names a converter might feel entitled to "modernise": the six fields are copied as they are
+        fields[0] = draw(st.sampled_from(["dance-single", "dance-double", "pump-single", "dance-couple", "DANCE-SINGLE", "ez2-single"]))
+        fields[2] = draw(st.sampled_from(["Basic", "Light", "Heavy", "Maniac", "Oni", "Expert", "Another", "Trick", "Standard", "SManiac",
+                                          "Beginner", "Easy", "Medium", "Hard", "Challenge", "Edit", "basic", "HEAVY", "smaniac"]))
+    if draw(st.integers(0, 2)) == 0:
         fields[0] = draw(st.sampled_from(["dance-single", "dance-double", "pump-routine"]))
         fields[3] = draw(st.sampled_from(["1", "9", "0"]))
     fields.append(draw(G.notedata()))
